@@ -10,10 +10,15 @@ import time
 
 
 @contextlib.contextmanager
-def inject(seed: int | None, scale: float = 0.004):
-    if seed is None:
+def inject(seed: int | None, scale: float = 0.004, slow_paths: dict | None = None):
+    """slow_paths: {path string: seconds} — reads of these shard files start that much later (a fault that
+    is met late, after the other workers have long finished)."""
+    if seed is None and not slow_paths:
         yield {"sleeps": 0}
         return
+    if seed is None:
+        seed = 0
+        scale = 0.0
     from sedpack.io.flatbuffer import IterateShardFlatBuffer
     from sedpack.io.npz import IterateShardNP
     from sedpack.io.tfrec import IterateShardTFRec
@@ -40,6 +45,10 @@ def inject(seed: int | None, scale: float = 0.004):
 
             def wrapper(self, *args, _orig=original, **kwargs):
                 nap()
+                if slow_paths:
+                    target = str(args[0] if args else next(iter(kwargs.values()), ""))
+                    if target in slow_paths:
+                        time.sleep(slow_paths[target])
                 return _orig(self, *args, **kwargs)
 
             setattr(cls, name, wrapper)
